@@ -528,5 +528,8 @@ FValsNest == {"i1", "i2", "sx", "sd", "sgt"}
 FTokQuick == FTokCore \ { <<"z">>, <<"1">> }
 NamesA == { <<"a">> }
 FValsKw == {"i1", "l1"}
+\* deep nesting and text after "]"
+FTokDeep == { <<"{", ":">>, <<"{", "}">>, <<"}">>, <<"{">>, <<"[", "]">>, <<"a">> }
+FValsOne == {"i1"}
 FTokSim == FTokFull \cup FTokSpec
 =============================================================================
